@@ -76,11 +76,32 @@ def project(tr):
     return (pr(s), p.iri if isinstance(p, MProperty) else repr(p), pr(o))
 
 
-def read_doc(text, timeout=5.0):
+def read_doc(text, timeout=5.0, chan="raw"):
+    """chan: how the document reaches the reader - a raw string, a file, or a gz / xz compressed file (the line readers named in
+    the property's anchors); the content is the same"""
     def go():
-        y = NtTriplesYielder(raw_graph=text)
-        res = [project(t) for t in y.yield_triples()]
-        return res, y.error_triples
+        if chan == "raw":
+            y = NtTriplesYielder(raw_graph=text)
+            res = [project(t) for t in y.yield_triples()]
+            return res, y.error_triples
+        import os
+        import gzip
+        import lzma
+        with sut.tmpdir() as d:
+            path = os.path.join(d, "doc.nt" + {"file": "", "gz": ".gz", "xz": ".xz"}[chan])
+            data = text.encode("utf-8")
+            if chan == "file":
+                with open(path, "wb") as f:
+                    f.write(data)
+            elif chan == "gz":
+                with gzip.open(path, "wb") as f:
+                    f.write(data)
+            else:
+                with lzma.open(path, "wb") as f:
+                    f.write(data)
+            y = NtTriplesYielder(source_file=path, compression_mode=None if chan == "file" else chan)
+            res = [project(t) for t in y.yield_triples()]
+            return res, y.error_triples
     return sut.guarded(go, timeout)
 
 
@@ -155,16 +176,19 @@ def check(case, do_crosscheck=True):
     if eol != "\n":
         labels.add("crlf")
     text = eol.join(lines) + (eol if case.get("final_nl", True) else "")
-    res, crash = read_doc(text)
+    chan = case.get("chan", "raw")
+    if chan != "raw":
+        labels.add("chan:" + chan)
+    res, crash = read_doc(text, chan=chan)
     if crash is not None:
         if isinstance(crash, sut.Hang):
             if sut.confirm_loop(lambda: list(NtTriplesYielder(raw_graph=text).yield_triples())):
                 return violation("reader does not terminate on %r" % text, labels, nt)
             return discard("slow")
-        return violation("reader raised %s on %r" % (crash, text), labels, nt)
+        return violation("reader raised %s on %r (delivered as %s)" % (crash, text, chan), labels, nt)
     got, errors = res
     if got != exp or errors != 0:
-        return violation("document %r\n expected %s\n got      %s\n error_triples=%s" % (text, exp, got, errors), labels, nt)
+        return violation("document %r (delivered as %s)\n expected %s\n got      %s\n error_triples=%s" % (text, chan, exp, got, errors), labels, nt)
     return ok(labels, nt)
 
 
@@ -180,7 +204,9 @@ def check_rich(case):
         exp.append(e)
     text = "\n".join(lines) + ("\n" if case.get("final_nl", True) else "")
     labels.add("nontrivial")
-    res, crash = read_doc(text)
+    if case.get("chan", "raw") != "raw":
+        labels.add("chan:" + case["chan"])
+    res, crash = read_doc(text, chan=case.get("chan", "raw"))
     if crash is not None:
         if isinstance(crash, sut.Hang):
             if sut.confirm_loop(lambda: list(NtTriplesYielder(raw_graph=text).yield_triples())):
@@ -363,10 +389,11 @@ def rich_stmt(draw):
 
 @st.composite
 def cases(draw):
+    chan = draw(st.sampled_from(["raw", "raw", "raw", "raw", "file", "gz", "xz"]))
     if draw(st.integers(0, 2)) == 0:
-        return {"rich": draw(st.lists(rich_stmt(), min_size=1, max_size=3)), "final_nl": draw(st.booleans())}
+        return {"rich": draw(st.lists(rich_stmt(), min_size=1, max_size=3)), "final_nl": draw(st.booleans()), "chan": chan}
     return {"stmts": draw(st.lists(stmt(), min_size=1, max_size=5)), "final_nl": draw(st.booleans()),
-            "eol": draw(st.sampled_from(["\n", "\n", "\r\n"]))}
+            "eol": draw(st.sampled_from(["\n", "\n", "\r\n"])), "chan": chan}
 
 
 def strategy(tier):
